@@ -549,12 +549,8 @@ func runCase(c Case) (res simResult) {
 	if v, _ := m["Finished seeds"].(uint64); int(v-base) != len(inserted) {
 		return fail("C17/gauges", "stats report %d more finished seeds, %d seeds finished", v-base, len(inserted))
 	}
-	nodes := map[string]bool{}
-	for _, f := range log {
-		nodes[f.URL] = true
-	}
-	if v, _ := m["Total URL crawled"].(uint64); int(v-baseURLs) < len(nodes) {
-		return fail("C17/gauges", "stats report %d URLs crawled, the network saw %d distinct URLs requested", v-baseURLs, len(nodes))
+	if v, _ := m["Total URL crawled"].(uint64); int(v-baseURLs) != p.Net.Requests() {
+		return fail("C17/gauges", "stats report %d URLs crawled, the archiver worked on %d items (distinct request objects that reached the network, %d requests with retries)", v-baseURLs, p.Net.Requests(), len(log))
 	}
 	for _, k := range []string{"Preprocessor routines", "Archiver routines", "Postprocessor routines"} {
 		if v, _ := m[k].(uint64); int(v) != c.Settings.Workers {
